@@ -137,6 +137,14 @@ class World:
         self.objs.append((kind, obj))
         return obj
 
+    slow = 0
+
+    async def slowly(self):
+        """An awaited release (audio source, web server, HTTP session) takes `slow` virtual
+        seconds before it has taken effect."""
+        if self.slow:
+            await asyncio.sleep(self.slow)
+
     def ledger(self):
         out = [kind for kind, o in self.objs if o.open]
         if self.raop_pm is not None and self.raop_pm._is_acquired:
@@ -393,6 +401,7 @@ def make_open_source(world):
             return EMPTY_METADATA
 
         async def close(self):
+            await world.slowly()
             self.open = False
             await world.plan.point("audio.close")
 
@@ -416,6 +425,7 @@ def make_web_server(world):
             self.open = True
 
         async def close(self):
+            await world.slowly()
             self.open = False
             await world.plan.point("server.close")
 
@@ -459,6 +469,7 @@ class FakeSessionManager(Obj):
         self.session = None
 
     async def close(self):
+        await self.world.slowly()
         self.open = False
         await self.world.plan.point("session.close")
 
@@ -497,7 +508,7 @@ def protocol_order():
 CONNECT_STEPS = ["connect", "register", "features", "device_info"]
 
 
-async def run_connect(subset, fault=None, delays=None, closes=None, lost=None):
+async def run_connect(subset, fault=None, delays=None, closes=None, lost=None, slow=0, cargs=None):
     """pyatv.connect with the protocols in `subset` (indices into PROTOCOLS order).  Per
     protocol the facade calls four things the protocol supplies: `await connect()` (which
     takes `delays[pos]` seconds of virtual time and then establishes a connection plus a
@@ -518,6 +529,7 @@ async def run_connect(subset, fault=None, delays=None, closes=None, lost=None):
     from pyatv.support import http
 
     world = World()
+    world.slow = slow or 0
     delays = list(delays or [0] * len(subset))
     closes = list(closes or ["sync"] * len(subset))
     if fault:
@@ -607,14 +619,32 @@ async def run_connect(subset, fault=None, delays=None, closes=None, lost=None):
 
     patches.set(pyatv, "PROTOCOLS", fake_protocols)
     patches.set(http, "create_session", create_session)
+    # ARGUMENTS of connect(): a configuration with services that are disabled (`also`: further
+    # protocol indices, present but disabled), without any identifier, a storage that raises,
+    # a caller-supplied session, a `protocol` argument
+    cargs = dict(cargs or {})
     config = conf.AppleTV("127.0.0.1", "verif")
-    for i in subset:
-        config.add_service(conf.ManualService(f"id{i}", order[i], 1000 + i, {}))
+    for i in sorted(set(subset) | set(cargs.get("also", []))):
+        ident = None if cargs.get("noid") else f"id{i}"
+        config.add_service(conf.ManualService(ident, order[i], 1000 + i, {}, enabled=i in subset))
+    kwargs = {}
+    if cargs.get("storage") == "raise":
+        class BadStorage:
+            async def get_settings(self, config):
+                raise OSError("storage unavailable")
+
+            def __str__(self):
+                return "BadStorage"
+        kwargs["storage"] = BadStorage()
+    if cargs.get("session"):
+        kwargs["session"] = object()
+    if "protocol" in cargs:
+        kwargs["protocol"] = order[cargs["protocol"]]
 
     before = set(asyncio.all_tasks())
     atv = None
     try:
-        plan.op_task = asyncio.ensure_future(pyatv.connect(config, loop))
+        plan.op_task = asyncio.ensure_future(pyatv.connect(config, loop, **kwargs))
         try:
             atv = await plan.op_task
             outcome = "ok"
@@ -627,7 +657,7 @@ async def run_connect(subset, fault=None, delays=None, closes=None, lost=None):
                                  if not t.done() and t is not asyncio.current_task()])
         # drain: let everything that was started run to its end (virtual time)
         close_times = [float(c.split(":")[1]) for c in closes if c.startswith("late:")]
-        await asyncio.sleep(max(delays + close_times + [0]) + 1.0)
+        await asyncio.sleep(max(delays + close_times + [world.slow]) + 1.0)
         for _ in range(3):
             await asyncio.sleep(0)
         obs = {
@@ -828,10 +858,11 @@ def stray(before):
     return out
 
 
-async def scenario_single(op, vol_known, fault_at, kind, foreign=(), raop_props=None, args=None):
+async def scenario_single(op, vol_known, fault_at, kind, foreign=(), raop_props=None, args=None, slow=0):
     """One call with one fault (or none), optionally while a foreign protocol holds a
     takeover; then a fresh stream_file must be accepted."""
     rig = await Rig(vol_known, raop_props=raop_props).setup()
+    rig.world.slow = slow or 0
     try:
         if foreign:
             rig.foreign_takeover(foreign)
@@ -952,14 +983,14 @@ def evaluate(case):
         from harness.core import vloop
 
         fault = tuple(case["fault"]) if case["fault"] else None
-        obs = vloop.run(run_connect, case["subset"], fault, case.get("delays"), case.get("closes"), case.get("lost"))
+        obs = vloop.run(run_connect, case["subset"], fault, case.get("delays"), case.get("closes"), case.get("lost"), case.get("slow"), case.get("cargs"))
         mfault = (4 * fault[0] + fault[1], fault[2]) if fault else None
         return obs, [f"run connect:{csv([str(i) for i in case['subset']])} - {fault_str(mfault)}"]
     if fam == "single":
         op, vol = tuple(case["op"]), case["vol"]
         fault = tuple(case["fault"]) if case["fault"] else None
         obs = run_async(scenario_single(op, vol, fault[0] if fault else None, fault[1] if fault else "fail",
-                                        tuple(case["foreign"]), case.get("raop_props"), case.get("args")))
+                                        tuple(case["foreign"]), case.get("raop_props"), case.get("args"), case.get("slow")))
         a = case.get("args") or {}
         if op[0] == "stream" and a.get("metadata") == "bad":
             op = ("stream", True)       # some metadata object was passed: no get_metadata call ...
@@ -1133,6 +1164,9 @@ def compare(ctx, case, obs, answers):
         # the call's own arguments make it fail (at a place that is not a collaborator call): oracle only
         ctx.note("args:own-failure:" + (obs["outcome"][4:] if obs["outcome"].startswith("err:") else "with-fault"))
         return
+    if fam == "connect" and case.get("cargs") and obs["outcome"].startswith("err:"):
+        ctx.note("connect-args:own-failure:" + obs["outcome"][4:])      # rejected by its own arguments: oracle only
+        return
     if fam == "connect" and case.get("lost") is not None:
         ctx.note("connect:lost-during-connect")     # early close by the device listener: oracle only
         return
@@ -1207,6 +1241,16 @@ def gen_cases(ctx):
                 for cls in chosen:
                     cases.append({"family": "connect", "subset": subset, "fault": [k, step, "fail:" + cls],
                                   "delays": [0] * m})
+            # ARGUMENTS of connect()
+            others = [i for i in range(n) if i not in subset]
+            for ca in ([{"also": others[:2]}, {"session": True, "protocol": subset[0]}] if others else [{"session": True}]) + \
+                    ([{"noid": True}, {"storage": "raise"}] if k == m - 1 else []):
+                cases.append({"family": "connect", "subset": subset, "fault": [k, (k + mask) % 4, "fail"],
+                              "delays": [0] * m, "cargs": ca})
+            # the HTTP session takes (virtual) time to close
+            for d in ((1, 4, 10, 60) if (ctx.thorough or m <= 2) else (60,)):
+                cases.append({"family": "connect", "subset": subset, "fault": [k, (k + d) % 4, "fail"],
+                              "delays": [0] * m, "slow": d})
             # an already connected protocol loses its connection while connect() is still under way
             if k >= 1:
                 for lost in range(k if ctx.thorough else 1):
@@ -1245,6 +1289,13 @@ def gen_cases(ctx):
                                          classes=(-1 if ctx.thorough else 3) if not foreign else 0, salt=salt)
             for f in faults:
                 cases.append({"family": "single", "op": list(op), "vol": c, "fault": f, "foreign": foreign})
+    #    DURATIONS of the awaited releases (audio source, web server): 1..60 virtual seconds
+    for op, c in variants():
+        nm = names[key(op, c)]
+        for d in (1, 4, 10, 60):
+            picks = [None] + faults_for(nm)[(d % 3)::(3 if ctx.thorough else 7)]
+            for f in picks:
+                cases.append({"family": "single", "op": list(op), "vol": c, "fault": f, "foreign": [], "slow": d})
     #    ARGUMENT VALUES of the calls themselves, including ones that make the call fail on its own
     play_args = [{"position": v} for v in (0, 5, "7", 2.5, -1, "1:30", "__none__", "", [1], 10 ** 30)] + \
                 [{"kwargs": {"foo": 1}}, {"kwargs": {"position": "x", "volume": 2}}]
